@@ -341,7 +341,9 @@ pub struct CommentCase {
     pub own_lines: bool,
 }
 
-const COMMENT_TEXTS: [&str; 8] = ["; plain comment", ";mov ax, 5", ";;; jmp nowhere ; nested", ";", "; \"quoted\" text", "; start: hlt", ";print reg", "; def p { }"];
+const COMMENT_TEXTS: [&str; 14] = ["; plain comment", ";mov ax, 5", ";;; jmp nowhere ; nested", ";", "; \"quoted\" text", "; start: hlt", ";print reg", "; def p { }",
+    // unbalanced quotes and brackets, macro arrows, a string with a semicolon: a comment runs to the end of its line whatever it contains
+    "; 5\" floppy", "; say \"hi", ";\"", "; it's ( [ {", "; db \"a;b\" ; \"c", "; -> <- macro x(a) ->"];
 
 /// insert ';' comments before line ends (and, optionally, as lines of their own)
 pub fn add_comments(text: &str, marks: &[u8], own_lines: bool) -> String {
